@@ -595,7 +595,7 @@ impl Compiler {
                         self.push_op(SetNull, &[result_register]);
                     }
                     self.leave_try_blocks_in_current_loop();
-                    self.push_jump_back_op(JumpBack, &[], loop_start_ip);
+                    self.push_jump_back_op(JumpBack, &[], loop_start_ip)?;
 
                     CompileNodeOutput::none()
                 }
@@ -2018,7 +2018,7 @@ impl Compiler {
         self.push_op(Op::ExportEntry, &[output_register]);
 
         // Jump back to get more iterator output
-        self.push_jump_back_op(Op::JumpBack, &[], iter_start_ip);
+        self.push_jump_back_op(Op::JumpBack, &[], iter_start_ip)?;
 
         // Finished, update the IterNextTemp offset and clean up the temporary registers
         self.update_offset_placeholder(iter_finished_offset)?;
@@ -4670,7 +4670,7 @@ impl Compiler {
             ),
         )?;
 
-        self.push_jump_back_op(JumpBack, &[], loop_start_ip);
+        self.push_jump_back_op(JumpBack, &[], loop_start_ip)?;
         self.pop_loop_and_update_placeholders()?;
 
         self.truncate_register_stack(stack_count)?;
@@ -4737,7 +4737,7 @@ impl Compiler {
             ),
         )?;
 
-        self.push_jump_back_op(JumpBack, &[], loop_start_ip);
+        self.push_jump_back_op(JumpBack, &[], loop_start_ip)?;
 
         if body_result.is_temporary {
             self.pop_register()?;
@@ -4759,10 +4759,14 @@ impl Compiler {
         Ok(result)
     }
 
-    fn push_jump_back_op(&mut self, op: Op, bytes: &[u8], target_ip: usize) {
+    fn push_jump_back_op(&mut self, op: Op, bytes: &[u8], target_ip: usize) -> Result<()> {
         let offset = self.bytes.len() + 3 + bytes.len() - target_ip;
+        let Ok(offset_u16) = u16::try_from(offset) else {
+            return self.error(ErrorKind::JumpOffsetIsTooLarge(offset));
+        };
         self.push_op_without_span(op, bytes);
-        self.push_bytes(&(offset as u16).to_le_bytes());
+        self.push_bytes(&offset_u16.to_le_bytes());
+        Ok(())
     }
 
     // For offset placeholders to work correctly,
